@@ -82,7 +82,8 @@ def init_headers(c, rng, tick):
                 for i, cls in enumerate(CLASSES[k]):
                     h = dict(kind=k, cls=cls, tick=tick, cfg=cfg, seed=rng.randrange(1, 10 ** 6))
                     if k == "reducer":
-                        h["warm"] = (not UNSHAPED_OK) or (i + int(incl)) % 2 == 0
+                        w = (i + int(incl)) % 3
+                        h["warm"] = "ks" if w == 2 else ((not UNSHAPED_OK) or w == 0)
                     out.append(h)
     return out
 
@@ -183,7 +184,7 @@ def random_traces(rng, count, steps, fuzzy=False):
                    syn=syn, dtype="f32")
         hdr = dict(kind=k, cls=cls, tick=tick, cfg=cfg, seed=rng.randrange(1, 10 ** 6))
         if k == "reducer":
-            hdr["warm"] = (not UNSHAPED_OK) or rng.random() < 0.5
+            hdr["warm"] = rng.choice([True, "ks", (not UNSHAPED_OK)])
         impl = ConfigImpl(hdr)
         nq0 = impl.nq()
         evs = []
